@@ -10,9 +10,9 @@ int_t in_repfnz[M*W], in_panel_lsub[M*W], in_w_lsub_end[W], in_spa_marker[M*W]; 
 GlobalLU_t in_Glu; Gstat_t in_Gstat; procstat_t in_procstat[NP];
 int_t in_xlsub[M+1], in_xlsub_end[M], in_xlusup[M+1], in_lsub[LC]; @T@ in_lusup[LUC];
 @T@ nondet_@T@(void);
-/* the stubs are loop-free (they are inlined into loops that carry contracts): bounded repetition by macro; all capacities <= 8 */
+/* bounded repetition by macro (loop-free stubs); all extents <= 8 */
 #define REP8(X) X(0) X(1) X(2) X(3) X(4) X(5) X(6) X(7)
-_Static_assert(W <= 8 && M <= 8 && TVC <= 16, "REP8 covers every extent");
+_Static_assert(W <= 8 && M <= 8 && LC <= 9, "REP8 covers every extent (n <= nsupc <= 6, m <= nrow <= NRC)");
 
 /* tuning parameters: maxsuper (3), rowblk (4) -- symbolic */
 int_t sp_ienv(int_t ispec) {
@@ -77,7 +77,6 @@ int @p@gemv_(char *trans, int *m, int *n, @T@ *alpha, @T@ *A, int *lda, @T@ *x, 
 int_t nondet_int_t(void);
 #define REQ(label, c) __CPROVER_assume(c)
 #define ENS(label, c) __CPROVER_assert(c, "ensures " #label)
-#undef DENSE0
 /* BOUNDED unit (label B(n)): no contract is enforced (a loop contract would havoc the cursor pointers dense_col/TriTmp/repfnz_col, after
  * which symex splits every access over all assignable objects: 70M clauses, out of memory; DFCC: out of memory as well).  The real
  * routine is executed symbolically with all loops unwound (--unwinding-assertions), for every geometry within the capacities.
